@@ -28,6 +28,16 @@ func Int63() int64         { return int64(Choose(2, "rand63")) * 0x3ffffffffffff
 func Int() int             { return int(Int63()) }
 func Float64() float64     { return float64(Choose(2, "randf")) * 0.75 }
 
+// MapKeysSorted returns the keys of m in canonical (sorted by printed form) order.
+func MapKeysSorted[K comparable, V any](m map[K]V) []K {
+	keys := make([]K, 0, len(m))
+	for k := range m {
+		keys = append(keys, k)
+	}
+	sort.Slice(keys, func(i, j int) bool { return fmt.Sprint(keys[i]) < fmt.Sprint(keys[j]) })
+	return keys
+}
+
 // MapKeys returns the keys of m in a canonical (sorted by printed form) order. With at most three keys
 // the explorer chooses the iteration order; above that the sorted order is used and the cap is recorded.
 func MapKeys[K comparable, V any](m map[K]V) []K {
